@@ -265,7 +265,7 @@ Record est := {
   s_next : nat;                       (* next request id *)
   s_queue : list (nat * Z);           (* unread requests (id, items), FIFO *)
   s_qsize : Z;                        (* memoryQueue.size / persistentQueue.queueSize *)
-  s_ref : list (nat * (Z * eres));    (* refCountDone cells: id -> (refCount, accumulated error) *)
+  s_ref : list (nat * (done * (Z * eres)));  (* refCountDone cells: id -> (the Done behind it, refCount, accumulated error) *)
   s_cur : option flushrec;            (* defaultBatcher.currentBatch *)
   s_flushq : list flushrec;           (* flush() calls waiting for the single worker *)
   s_hung : option flushrec;           (* export sitting in the back-off select until shutdown *)
@@ -325,19 +325,19 @@ Section Exporter.
     | RErr, RErr => RErr
     end.
 
-  Fixpoint ref_lookup (id : nat) (l : list (nat * (Z * eres))) : option (Z * eres) :=
+  Fixpoint ref_lookup (id : nat) (l : list (nat * (done * (Z * eres)))) : option (done * (Z * eres)) :=
     match l with
     | [] => None
     | (i, v) :: t => if Nat.eqb i id then Some v else ref_lookup id t
     end.
 
-  Fixpoint ref_remove (id : nat) (l : list (nat * (Z * eres))) : list (nat * (Z * eres)) :=
+  Fixpoint ref_remove (id : nat) (l : list (nat * (done * (Z * eres)))) : list (nat * (done * (Z * eres))) :=
     match l with
     | [] => []
     | (i, v) :: t => if Nat.eqb i id then t else (i, v) :: ref_remove id t
     end.
 
-  Definition set_ref (st : est) (r : list (nat * (Z * eres))) : est :=
+  Definition set_ref (st : est) (r : list (nat * (done * (Z * eres)))) : est :=
     {| s_led := s_led st; s_outs := s_outs st; s_next := s_next st; s_queue := s_queue st; s_qsize := s_qsize st;
        s_ref := r; s_cur := s_cur st; s_flushq := s_flushq st; s_hung := s_hung st; s_down := s_down st;
        s_offered := s_offered st; s_stored := s_stored st; s_shut := s_shut st; s_kept := s_kept st;
@@ -347,11 +347,12 @@ Section Exporter.
   Definition fire (r : eres) (st : est) (d : done) : est :=
     match ref_lookup (d_id d) (s_ref st) with
     | None => on_done d r st
-    | Some (cnt, acc) =>
+    | Some (d0, (cnt, acc)) =>
+        (* refCountDone.OnDone: rcd.refCount--; at 0 the Done behind it (rcd.done) is called *)
         let acc' := comb acc r in
         if cnt <=? 1
-        then on_done d acc' (set_ref st (ref_remove (d_id d) (s_ref st)))
-        else set_ref st ((d_id d, (cnt - 1, acc')) :: ref_remove (d_id d) (s_ref st))
+        then on_done d0 acc' (set_ref st (ref_remove (d_id d) (s_ref st)))
+        else set_ref st ((d_id d, (d0, (cnt - 1, acc'))) :: ref_remove (d_id d) (s_ref st))
     end.
 
   (* multiDone.OnDone *)
@@ -417,7 +418,7 @@ Section Exporter.
 
   (* refCountDone is created only when the request was split into more than one part *)
   Definition with_ref (st : est) (d : done) (parts : list Z) : est :=
-    if (1 <? Z.of_nat (length parts)) then set_ref st ((d_id d, (Z.of_nat (length parts), ROk)) :: s_ref st) else st.
+    if (1 <? Z.of_nat (length parts)) then set_ref st ((d_id d, (d, (Z.of_nat (length parts), ROk))) :: s_ref st) else st.
 
   (* default_batcher.go Consume (the flushes are queued for the worker) / disabled_batcher.go Consume *)
   Definition consume (st : est) (d : done) : est :=
